@@ -84,6 +84,10 @@ type monSink struct {
 
 func (s *monSink) fails(call byte) bool {
 	s.counts[call]++
+	if s.d.curFault[[2]byte{s.name, call}] {
+		s.d.faultFired++
+		return true
+	}
 	for _, f := range s.d.faults {
 		if f.sink == s.name && f.call == call && f.n == s.counts[call] {
 			return true
@@ -171,6 +175,8 @@ type PDrv struct {
 	ev       int
 	curDisk  bool
 	curStart bool
+	curFault map[[2]byte]bool // per-event: the call of this kind on this sink fails if made during the event
+	faultFired int
 	// per event bookkeeping for the oracles
 	evKind     []byte
 	evID       []int  // id of the frame carried by the event (0 for R/T, negative for bad frames)
@@ -396,8 +402,15 @@ func (d *PDrv) Apply(tok string) (perr error) {
 	kind := tok[0]
 	clock := 0
 	d.curDisk, d.curStart = false, false
+	d.curFault = nil
 	for i := 1; i < len(tok); i++ {
 		switch tok[i] {
+		case 'f':
+			if d.curFault == nil {
+				d.curFault = map[[2]byte]bool{}
+			}
+			d.curFault[[2]byte{tok[i+1], tok[i+2]}] = true
+			i += 2
 		case 'd':
 			d.curDisk = true
 		case 's':
